@@ -840,8 +840,8 @@ def check_C03(chk):
     alloc_design(chk)
     return chk.finish("model_checking",
                       "Inv_C03 (WellFormed and Exact from spec/Qcow2Format.tla) evaluated after every successful flush_meta of seeded histories "
-                      "over all refcount widths incl. sub-byte, several slice sizes, built and library-formatted images; design model spec/Alloc.tla: refcounts "
-                      "after every allocation/free of its TLC-enumerated behaviours compared with the real allocator's (binding B3)",
+                      "over all refcount widths incl. sub-byte, several slice sizes, built and library-formatted images; design model spec/Alloc.tla: the real allocator's "
+                      "outcome on each TLC-enumerated state judged against the allocator's contract (spec/AllocCheck.tla)",
                       BASE_ASSUME)
 
 
@@ -1353,34 +1353,47 @@ def run_alloc_vectors(chk, vecs):
                 cur.append(json.loads(line))
     if len(runs) != len(vecs):
         raise Q.ToolError(f"allocator replay: {len(runs)} runs for {len(vecs)} vectors")
-    bad = 0
+    # (1) implementation -> specification: the real outcomes are judged against the allocator's
+    #     contract by TLC (spec/AllocCheck.tla); only this decides the exit status
+    # (2) specification -> implementation: equality with Alloc.tla's own result (which cluster, the
+    #     hint) is conformance information; another valid choice is a divergence, not a violation
+    outs, diverged = [], 0
     for v, sc, evs in zip(vecs, scens, runs):
         rets = [e for e in evs if e["e"] == "Ret"]
         dumps = [e for e in evs if e["e"] == "Note" and e.get("msg") == "rcdump"]
-        why = None
-        if any(e["e"] in ("Panic", "Stuck") for e in evs):
-            why = "the allocator panicked or hung: " + json.dumps([e for e in evs if e["e"] in ("Panic", "Stuck")])[:200]
-        elif not rets or len(dumps) != 2:
+        panic = any(e["e"] in ("Panic", "Stuck") for e in evs)
+        if not panic and (not rets or len(dumps) != 2):
             raise Q.ToolError(f"allocator replay: malformed run {sc['name']}")
-        else:
-            r = rets[0]
-            got = [r["c"], r["n"]] if r["res"] == "ok" else [-1, 0]
-            exp = list(v["res"])
-            if got != exp:
-                why = f"allocate_clusters({v['count']}) returned {got}, Alloc.tla says {exp}"
-            elif dumps[0]["used"] != sorted(v["used_after"]):
-                why = f"refcounts after allocation differ from Alloc.tla: extra {sorted(set(dumps[0]['used']) - set(v['used_after']))[:8]} missing {sorted(set(v['used_after']) - set(dumps[0]['used']))[:8]}"
-            elif dumps[0]["hint"] != v["hint_after"]:
-                why = f"free hint after allocation {dumps[0]['hint']}, Alloc.tla says {v['hint_after']}"
-            elif dumps[1]["used"] != sorted(v["used_freed"]):
-                why = f"refcounts after freeing the run differ from Alloc.tla"
-            elif dumps[1]["hint"] != v["hint_freed"]:
-                why = f"free hint after free {dumps[1]['hint']}, Alloc.tla says {v['hint_freed']}"
-        if why:
-            bad += 1
-            if bad <= 3:
-                sc2 = dict(sc, expected=v)
-                chk.report({"scenario": sc2}, chk.prop, f"{sc['name']}: {why}", "allocvec:" + why[:60])
+        r = rets[0] if rets else {"res": "err"}
+        got = [r["c"], r["n"]] if r.get("res") == "ok" else [-1, 0]
+        d0 = dumps[0] if dumps else {"used": v["used"], "multi": [], "hint": v["hint"]}
+        d1 = dumps[1] if len(dumps) > 1 else d0
+        outs.append({"used": sorted(v["used"]), "rb1": v["rb1"], "count": v["count"], "res": got, "panic": 1 if panic else 0,
+                     "used_after": d0["used"], "multi": sorted(set(d0.get("multi", [])) | set(d1.get("multi", []))),
+                     "used_freed": d1["used"]})
+        if not panic and (got != list(v["res"]) or d0["used"] != sorted(v["used_after"]) or d0["hint"] != v["hint_after"]
+                          or d1["used"] != sorted(v["used_freed"]) or d1["hint"] != v["hint_freed"]):
+            diverged += 1
+    op = os.path.join(chk.wd, "alloc_outcomes.ndjson")
+    with open(op, "w") as f:
+        for o in outs:
+            f.write(json.dumps(o) + "\n")
+    recs, _, _ = Q.tlc_enumerate("AllocCheck.tla", env={"OUTCOMES": op}, workers=1, timeout=1800, assume_only=True)
+    if not any(r["i"] == 0 and r.get("n") == len(outs) for r in recs):
+        raise Q.ToolError("AllocCheck.tla did not judge every outcome")
+    bad = 0
+    for r in recs:
+        if r["i"] == 0:
+            continue
+        bad += 1
+        if bad <= 3:
+            v, sc = vecs[r["i"] - 1], scens[r["i"] - 1]
+            why = "; ".join(sorted(r["bad"]))
+            chk.report({"scenario": dict(sc, expected=v)}, chk.prop, f"{sc['name']}: allocate_clusters({v['count']}) -> {outs[r['i'] - 1]['res']}: {why}",
+                       "allocvec:" + why[:60])
+    chk.extra["alloc_model_divergence"] = chk.extra.get("alloc_model_divergence", 0) + diverged
+    if diverged:
+        Q.log(f"  note: {diverged} of {len(vecs)} allocator outcomes differ from Alloc.tla's own choice (contract still judged per outcome)")
     return bad
 
 
@@ -1468,8 +1481,8 @@ def check_C08(chk):
     return chk.finish("model_checking",
                       "design model spec/Alloc.tla (transcription of allocate_clusters / try_allocate_from / get_free_range / tail range / "
                       "fragment retry / free hint): contract checked by TLC on every refcount pattern, hint and request of a 2x(2x4)-entry geometry "
-                      "(MC_AllocSmall) and its behaviours on boundary-shaped patterns of the real 64-entry slices replayed into the real allocator "
-                      "(result, refcounts, hint compared); hook H1 samples the in-ram metadata view after every scheduler step (recorded on change) and TLC evaluates Inv_C08 on it: "
+                      "(MC_AllocSmall); its states on boundary-shaped patterns of the real 64-entry slices are set up in the real allocator and every real "
+                      "outcome is judged by TLC against the contract (AllocCheck.tla; equality with the model's own choice is informational); hook H1 samples the in-ram metadata view after every scheduler step (recorded on change) and TLC evaluates Inv_C08 on it: "
                       "no host cluster referenced twice, refcount >= references, hook-allocated clusters owned by nobody else; allocation histories "
                       "driven through hook H3 (single/multi-cluster, fragmenting frees, slice and refblock boundaries, concurrent allocators and "
                       "writers): Inv_C08alloc (run aligned, contiguous, <= requested, free when the call started, given to one requester); write/"
